@@ -9,11 +9,24 @@ from common import *
 def run(pid, tier):
     o = Outcome(pid, tier, 'model_checking')
     build_harness()
+    collect(o, pid, tier, toy=True)
+    o.assumptions = [
+        'NOT decided: F[i] = f(X[i]) to 1e-14 (needs exp), v = r f(r) + tail area (needs erfc/exp), the accept/reject decision inside the wedge (compares with exp), the laws of the tail routines, the statistical match per layer',
+        'design level: ZigToy.tla counts tickets of the transcribed loop on a rational toy density (4 layers, 48x48 lattice): law holds up to lattice resolution, three wrong designs fail; the real loop is bound by the automaton over observable facts (layer bits, sign bit, words consumed, result region)',
+        'fixed-point limbs floor(x*2^40), floor(f*2^45) and ordinals are representation changes made by the harness',
+    ]
+    return o.finish()
+
+
+def collect(o, pid, tier, toy=True):
+    """tables + (optionally) toy design law + trace conformance; findings go to the given Outcome (C06, or C01 which
+    includes the ziggurat's structural conformance as the part of the normal/exponential law this technique reaches)"""
     sd = seed()
+    pre = '' if pid == 'C06' else 'zig_'
     wd = workdir(pid, 'traces')
     tab = wd / 'zigtables.ndjson'
     s = rdv(['zig-export', '--out', tab])
-    r = tlc('ZigTables', 'ZigTables.cfg', pid, 'tables', workers=1, env={'TABLE': tab}, timeout=3000, heap='4g')
+    r = tlc('ZigTables', 'ZigTables.cfg', pid, pre + 'tables', workers=1, env={'TABLE': tab}, timeout=3000, heap='4g')
     o.add_tlc(r, 'ZigTables: structural equations over 4 x 257 entries + 2 constants')
     o.extra['table_entries'] = s['entries']
     if r.violated or 'TABLE-BAD' in r.out:
@@ -24,8 +37,8 @@ def run(pid, tier):
         require_ok(r, 'ZigTables')
     # sub-claim 1: the design of the loop samples a (toy, rational) density exactly up to lattice resolution;
     # deliberately wrong designs must fail the same check (otherwise the check would be vacuous)
-    for variant in ('code', 'rect_uses_xi', 'wedge_index_off', 'no_x0_convention'):
-        rz = tlc('ZigToyLaw', 'ZigToy_%s.cfg' % variant, pid, 'toy_' + variant, workers=2, timeout=1200, heap='3g')
+    for variant in (('code', 'rect_uses_xi', 'wedge_index_off', 'no_x0_convention') if toy else ()):
+        rz = tlc('ZigToyLaw', 'ZigToy_%s.cfg' % variant, pid, pre + 'toy_' + variant, workers=2, timeout=1200, heap='3g')
         holds = 'Assumption' not in rz.out and 'is false' not in rz.out
         if 'ZIGTOY' not in rz.out:
             raise ToolError('ZigToyLaw did not evaluate (%s): %s' % (variant, rz.out[-800:]))
@@ -40,7 +53,7 @@ def run(pid, tier):
     for bi in range(0, len(lines), 150000):
         part = wd / ('zig_%d.ndjson' % (bi // 150000))
         part.write_text('\n'.join(lines[bi:bi + 150000]) + '\n')
-        rr = tlc('TraceZig', 'TraceZig.cfg', pid, 'trace_%d' % (bi // 150000), trace_mode=True, env={'TRACE': part, 'TABLE': tab}, timeout=3000, heap='8g')
+        rr = tlc('TraceZig', 'TraceZig.cfg', pid, pre + 'trace_%d' % (bi // 150000), trace_mode=True, env={'TRACE': part, 'TABLE': tab}, timeout=3000, heap='8g')
         require_ok(rr, 'TraceZig')
         if rr.rejected or rr.violated:
             raise ToolError('zig trace not consumed: %s' % (rr.rejected or rr.violated))
@@ -57,9 +70,4 @@ def run(pid, tier):
     o.extra['sampled_events_single_iteration_share'] = round(single / max(len(evs), 1), 3)
     o.samples.append({'kind': 'table entry (exported through the cfg hook)', 'entry': json.loads(tab.read_text().splitlines()[5])})
     o.samples.append({'kind': 'scripted ziggurat call', 'event': json.loads(lines[100])})
-    o.assumptions = [
-        'NOT decided: F[i] = f(X[i]) to 1e-14 (needs exp), v = r f(r) + tail area (needs erfc/exp), the accept/reject decision inside the wedge (compares with exp), the laws of the tail routines, the statistical match per layer',
-        'design level: ZigToy.tla counts tickets of the transcribed loop on a rational toy density (4 layers, 48x48 lattice): law holds up to lattice resolution, three wrong designs fail; the real loop is bound by the automaton over observable facts (layer bits, sign bit, words consumed, result region)',
-        'fixed-point limbs floor(x*2^40), floor(f*2^45) and ordinals are representation changes made by the harness',
-    ]
-    return o.finish()
+
